@@ -696,8 +696,12 @@ func (t *fnTrans) applyContract(in ssa.Instruction, fc *FuncContract, callee *ss
 	}
 	post := &evalCtx{t: t, fn: efn, st: t.cur, old: preState, binds: binds, results: results, where: full}
 	for _, en := range fc.ensures {
+		// ensures clauses that mention the callee's ghosts / locals cannot be used by callers
+		nerr := len(t.g.ann.errs)
 		if term, ok := t.evalBool(post, en); ok {
 			t.assume(term)
+		} else {
+			t.g.ann.errs = t.g.ann.errs[:nerr]
 		}
 	}
 	t.usedContracts[full] = true
